@@ -44,9 +44,20 @@ def rule_l1(F):
         if not b.hir or not b.mir or b.file.endswith("runtime/layout.rs") or "tests" in b.file:
             continue
         sites = []
+        outer = []
+        fnpath = b.path
+        if b.def_kind == "Closure":
+            # context of the closure inside its parent
+            parent = b.path.rsplit("::{closure", 1)[0]
+            pb = F.body(parent)
+            fnpath = parent
+            if pb is not None and pb.hir:
+                for n, anc in hir.walk_ctx(pb.hir.get("value") or {}):
+                    if n.get("k") == "closure" and n.get("def") == b.path:
+                        outer = anc
         for n, anc in hir.walk_ctx(b.hir.get("value") or {}):
             if n.get("k") == "call" and (hir.call_def(n) or "").endswith("LayoutBuilder::new"):
-                sites.append((n["line"], classify(anc, b.path)))
+                sites.append((n["line"], classify(outer + anc, fnpath)))
         if not sites:
             continue
         defs = mir.Defs(b)
@@ -109,6 +120,15 @@ def rule_l1(F):
                             r.bad(b.path, "walk #%d order" % news.index((nbi, nt)), relfile(b.file), t["line"], "fields are added to the layout through %s: offsets no longer follow declaration order" % bad[0])
         # iterators in the function that reverse/skip field lists (for-loops over `fields`)
     r.note("enum walks: %d, record walks: %d" % (n_enum, n_rec))
+    # required walk sites (one per independent re-computation of variant offsets)
+    need = {"Pool::layout_of": "mir::ty::Pool::layout_of", "location (VariantField)": "::location", "clone body": "generate_clone_body_enum",
+            "drop body": "generate_drop_body_enum", "eq body": "generate_eq_body_enum"}
+    have = [k.split(" line-free")[0] for k in r.instances if " line-free enum" in k]
+    for label, suffix in need.items():
+        if not any(suffix in h for h in have):
+            r.bad("layout walks", "missing enum walk: " + label, "-", 0,
+                  "the offsets of enum variant fields in `%s` are no longer computed by a LayoutBuilder walk seeded with the tag byte (add per field, in order): "
+                  "agreement with Pool::layout_of and the generated clone/drop/eq bodies cannot be established (e.g. Layout::concat pads the prefix like a finished struct)" % label)
     if n_enum < 5:
         r.missing("5 enum-variant layout walks (found %d)" % n_enum)
     if n_rec < 5:
